@@ -118,6 +118,10 @@ def s2(prog: Program, chk: Check) -> None:
             if n.kind == "stmt" and isinstance(n.ast, ast.Assign) and \
                     any(dotted(x) == "self._step" for x in n.ast.targets):
                 commit = t.form(n.ast.value, n.id)
+            if n.kind == "stmt" and isinstance(n.ast, ast.AugAssign) and \
+                    dotted(n.ast.target) == "self._step" and isinstance(n.ast.op, ast.Add) \
+                    and isinstance(n.ast.value, ast.Constant):
+                commit = STEP + Poly.const(n.ast.value.value)
         ok = pidx == STEP and sidx == STEP + ONE and commit == STEP + ONE
         chk.add("S2", u, f"propagators({pidx}) -> compute_system_step({sidx}) -> step := {commit}",
                 ok, "" if ok else
